@@ -2430,6 +2430,7 @@ impl Reference
 		let member = steps.iter().rev().find_map(|step| step.get_member());
 		let symbol = member.as_ref().unwrap_or(base);
 		let declaration = typer.get_valid_declaration(symbol);
+		let is_declared = declaration.is_some();
 		let address_error = match (declaration, &value_type, assignment_value)
 		{
 			(Some((previous_type, previous)), _, _) if excess_addresses > 0 =>
@@ -2479,6 +2480,12 @@ impl Reference
 				location_of_unaddressed: self.location_of_unaddressed,
 			};
 		}
+
+		// A poisoned value does not tell us anything about the type of the
+		// assignee; in particular it must not poison a variable whose type is
+		// already known during the preliminary passes over a function body,
+		// or the error that caused it is never reported.
+		let value_type = value_type.filter(|x| x.is_ok() || !is_declared);
 
 		let member = member.map(|member| (member, value_type.clone()));
 
